@@ -24,6 +24,10 @@ EXPLANATION = (
     "no event value (strftime, Failure()), truth-testing of event values, the observers that write the text "
     "(FileLogObserver.emit / formatTime of python/log.py)."
 )
+RULE_KINDS = {
+    # exception-escape analysis over the call graph of the formatting entry points + value-kind (text / arbitrary object) provenance
+    "escape/": "structural", "returns-text": "structural",
+}
 ASSUMPTIONS = [
     "the event is a real dict: .get/.items/`in` and event[k] under a dominating `k in event` test are total",
     "bool(), `is`, isinstance, cast, reflect.safe_repr/safe_str, Failure() and the PotentialCallWrapper/CallMapping "
